@@ -29,12 +29,29 @@ static void do_fp()
     }
     printf("\nout");
     for (size_t i = 0; i < tot; i++) pf(steps ? out->getData()[i] : in->getData()[i]);
+    // The step has no input but data_in and the stencil table (C04_fp_apply_column_local): whatever else the input grid holds -
+    // cached bunch / energy profile, integral, filling, moments, all of which main() refreshes for grid_t1 only, never for the
+    // grid the Fokker-Planck map reads - must not matter.  Apply once more with those caches zeroed and count the cells that differ.
+    if (steps) {
+        std::vector<meshdata_t> ref(out->getData(), out->getData() + tot);
+        std::fill(in->_projection.data(), in->_projection.data() + in->_projection.num_elements(), 0);
+        std::fill(in->_moment.data(), in->_moment.data() + in->_moment.num_elements(), 0);
+        std::fill(in->_rms.data(), in->_rms.data() + in->_rms.num_elements(), 0);
+        std::fill(in->_filling.begin(), in->_filling.end(), 0);
+        in->_integral = 0;
+        for (size_t i = 0; i < tot; i++) out->getData()[i] = -12345.0f;      // a cell the second application leaves unwritten shows up
+        fpm.apply();
+        size_t nd = 0, first = 0;
+        for (size_t i = 0; i < tot; i++)
+            if (std::memcmp(&ref[i], &out->getData()[i], sizeof(meshdata_t)) != 0) { if (!nd) first = i; nd++; }
+        printf("\ncachedep %zu %zu", nd, first);
+    }
     printf("\nend\n");
 }
 
 // evo <id> <dt> <v> <n> <it> <steps> <every> <half> <angle> <e1> <w> ; data (n*n)
 // One bunch on [-half,half]^2; iterates RFKickMap (linear) -> DriftMap -> FokkerPlanckMap as main() does
-// (grid1 -> grid2 -> grid3 -> grid1) and prints, every <every> steps, the raw moments about the zero bins
+// (Identity grid1 -> grid2, RF grid2 -> grid1, drift grid1 -> grid3, FP grid3 -> grid1; see do_evo) and prints, every <every> steps, the raw moments about the zero bins
 // in cells, accumulated in double: M0 Mu Mv Muu Muv Mvv, and the absolute mass of the cells that one step can move
 // across the border (within w cells of it after the largest kick of their row or column).  Also prints tan(angle) as the RF map computes it.
 static void moments(const char* tag, unsigned k, std::shared_ptr<PhaseSpace> g, unsigned n, unsigned w, double t)
@@ -56,14 +73,21 @@ static void do_evo()
     unsigned dt = nextl(), v = nextl(), n = nextl(), it = nextl(), steps = nextl(), every = nextl();
     float half = nextf(), angle = nextf(), e1 = nextf();
     unsigned w = nextl();   // width of the border ring whose absolute mass is reported (sum |f|)
+    // wired as main() wires an impedance-free run: grid_t1 is built and filled first, grid_t2 and grid_t3 are COPIES of it
+    // (copy constructor: data + the projections / integral of that data, computed once), the wake stand-in is an Identity
+    // grid_t1 -> grid_t2, RF kick grid_t2 -> grid_t1, drift grid_t1 -> grid_t3, Fokker-Planck grid_t3 -> grid_t1, and after
+    // every step only grid_t1's bunch profile is refreshed (main.cpp: grid_t1->updateXProjection()).  Whatever a map reads
+    // from its input grid besides the data (cached profile, integral, moments) is therefore as stale here as in the program.
     auto g1 = mkps(n, 1, -half, half, -half, half);
-    auto g2 = mkps(n, 1, -half, half, -half, half);
-    auto g3 = mkps(n, 1, -half, half, -half, half);
     const size_t tot = (size_t)n * n;
-    for (size_t i = 0; i < tot; i++) { g1->getData()[i] = nextf(); g2->getData()[i] = 0; g3->getData()[i] = 0; }
-    RFKickMap rfm(g1, g2, angle, 5e8, static_cast<SourceMap::InterpolationType>(it), false, nullptr);
+    for (size_t i = 0; i < tot; i++) g1->getData()[i] = nextf();
+    g1->updateXProjection(); g1->updateYProjection(); g1->integrate();      // what the constructor does for its own start data
+    auto g2 = std::make_shared<PhaseSpace>(*g1);
+    auto g3 = std::make_shared<PhaseSpace>(*g1);
+    Identity wm(g1, g2, nullptr);
+    RFKickMap rfm(g2, g1, angle, 5e8, static_cast<SourceMap::InterpolationType>(it), false, nullptr);
     std::vector<meshaxis_t> slip{angle, 0, 0};
-    DriftMap drm(g2, g3, slip, 1e9, static_cast<SourceMap::InterpolationType>(it), false, nullptr);
+    DriftMap drm(g1, g3, slip, 1e9, static_cast<SourceMap::InterpolationType>(it), false, nullptr);
     std::unique_ptr<SourceMap> fpm;
     if (e1 > 0)
         fpm.reset(new FokkerPlanckMap(g3, g1, n, n, static_cast<FokkerPlanckMap::FPType>(v),
@@ -77,7 +101,8 @@ static void do_evo()
     printf("\n");
     moments("m", 0, g1, n, w, std::tan(angle));
     for (unsigned k = 1; k <= steps; k++) {
-        rfm.apply(); drm.apply(); fpm->apply();
+        wm.apply(); rfm.apply(); drm.apply(); fpm->apply();
+        g1->updateXProjection();
         if (k % every == 0 || k == steps) moments("m", k, g1, n, w, std::tan(angle));
     }
     float mn = 0; for (size_t i = 0; i < tot; i++) mn = std::min(mn, g1->getData()[i]);
